@@ -480,6 +480,50 @@ def normalise_empty_containers(modules):
     return count
 
 
+def _side_effect_free(e):
+    for n in ast.walk(e):
+        if isinstance(n, ast.Call) and not (isinstance(n.func, ast.Name) and n.func.id in ('len', 'type', 'id', 'isinstance', 'issubclass', 'callable', 'hasattr', 'bool')):
+            return False
+        if isinstance(n, (ast.NamedExpr, ast.Yield, ast.YieldFrom, ast.Await, ast.Lambda, ast.ListComp, ast.SetComp, ast.DictComp, ast.GeneratorExp)):
+            return False
+    return True
+
+
+def inline_test_temporaries(modules):
+    """`v = E` immediately followed by `if v:` / `if not v:` - E a side-effect-free comparison or boolean combination - is analysed with the test
+    spelled out (`if E:`); the assignment stays, so later uses of v are unaffected.  The rules read what a branch establishes from the test itself.
+    Returns the number of rewritten tests."""
+    count = 0
+    for mod in modules.values():
+        for parent in ast.walk(mod.tree):
+            for field in ('body', 'orelse', 'finalbody'):
+                lst = getattr(parent, field, None)
+                if not isinstance(lst, list):
+                    continue
+                for i in range(len(lst) - 1):
+                    st, nxt = lst[i], lst[i + 1]
+                    if not (isinstance(st, ast.Assign) and len(st.targets) == 1 and isinstance(st.targets[0], ast.Name) and isinstance(nxt, ast.If)):
+                        continue
+                    if not (isinstance(st.value, (ast.Compare, ast.BoolOp)) or (isinstance(st.value, ast.UnaryOp) and isinstance(st.value.op, ast.Not))):
+                        continue
+                    if not _side_effect_free(st.value) or any(isinstance(x, ast.Name) and x.id == st.targets[0].id for x in ast.walk(st.value)):
+                        continue
+                    t = nxt.test
+                    holder, attr = nxt, 'test'
+                    while isinstance(t, ast.UnaryOp) and isinstance(t.op, ast.Not):
+                        holder, attr, t = t, 'operand', t.operand
+                    if not (isinstance(t, ast.Name) and t.id == st.targets[0].id):
+                        continue
+                    new = copy.deepcopy(st.value)
+                    for x in ast.walk(new):
+                        if hasattr(x, 'lineno'):
+                            x.lineno, x.col_offset = t.lineno, t.col_offset
+                            x.end_lineno, x.end_col_offset = getattr(t, 'end_lineno', t.lineno), getattr(t, 'end_col_offset', t.col_offset)
+                    setattr(holder, attr, new)
+                    count += 1
+    return count
+
+
 def normalise_deque_calls(modules):
     """The deque-only spellings `x.popleft()` and `x.appendleft(v)` are analysed as the sequence operations they are, `x.pop(0)` and
     `x.insert(0, v)`, and an argument-less `deque()` / `collections.deque()` as an empty sequence: replacing a list used as a queue by a deque does
@@ -860,6 +904,7 @@ class Program:
         self.containers_normalised = normalise_empty_containers(self.modules)
         self.deque_calls_normalised = normalise_deque_calls(self.modules)
         self.returns_inlined = inline_returned_temporaries(self.modules)
+        self.tests_inlined = inline_test_temporaries(self.modules)
         self.walrus_hoisted = hoist_walrus(self.modules)
         self.conditionals_expanded = expand_conditional_statements(self.modules)
         self.else_hoisted = hoist_else_after_leave(self.modules)
